@@ -46,7 +46,13 @@ def scenarios(r, n):
             n_iter = r.choice([1, 3, 6, 10, 14])
             if spec["opt"] in gen.SMBO:
                 n_iter = min(n_iter, 8)
-            calls.append(dict(n_iter=n_iter, memory="off", max_score=r.choice(THRESH), verbosity=r.choice(drvgen.VERBS[:3])))
+            c = dict(n_iter=n_iter, memory="off", max_score=r.choice(THRESH), verbosity=r.choice(drvgen.VERBS[:3]))
+            k = r.random()
+            if k < 0.12:     # combined criteria exercise the if/elif chain of StopRun.check (correspondence only)
+                c["early_stopping"] = {"n_iter_no_change": r.choice([2, 1000])}
+            elif k < 0.2:
+                c["max_time"] = r.choice([1, 1000])
+            calls.append(c)
             script += [r.choice(VALS) for _ in range(n_iter)]
         spec["calls"] = calls
         spec["script"] = script + [0.0] * 4
